@@ -26,7 +26,7 @@ EXTENDS Naturals, Integers, Sequences, FiniteSets, TLC, Json
 CONSTANTS MaxInputs, MaxStages, Cap,   \* Cap: units a pipe buffers
           Modes, FailEnds, LinkEnds,   \* what TLC may choose
           MaxFail,                     \* at most this many stages of the failing input fail on their own
-          Devs,                        \* subset of {"TempLeak", "LinkSpawnLeak"}
+          Devs,                        \* subset of {"TempLeak", "LinkSpawnLeak"}; both repaired in /repo (cf8cbda, 683ccbd): {} in every cfg
           KeepReadEnds,                \* TRUE: the driver never closes the read ends it created (as the code)
           EmitCases                    \* print a VCASE line for every terminal state
 
